@@ -8,7 +8,7 @@ def run(f):
     try: return f(), None
     except Exception as e: return None, type(e).__name__+':'+re.sub(r'\d+','N',str(e)[:60])
 dts2 = dts+[np.uint16,np.uint32,np.uint64]
-for it in range(40000):
+for it in range(int(__import__("os").environ.get("RECON_N", 40000))):
     lens=rand_lengths(); d=random.choice(dts2); 
     if random.random()<.2: lens=[random.choice([0,1,30]) for _ in range(random.randint(1,4))]
     a=rand_data(sum(lens),d) if d not in(np.uint16,np.uint32,np.uint64) else rng.integers(0,1000,sum(lens)).astype(d)
